@@ -22,11 +22,17 @@ CONFIG = {
     ],
     "mult_search": 3,
     "refuted": [],
-    "partial": [],
+    "partial": [
+        "proved in full over the model: JSONToProto and QueryToProto never panic and never exhaust fuel S(tokens) (C06_full); the nesting of property values is bounded by the constant 10000 (C06_nesting_bounded)",
+        "\"in time bounded by the input size\" has NO theorem: the fuel bounds the recursion, not the work; a per-call timing budget in the harness (2 s + 50 us/byte, 10^6-deep documents in a child process) is the only check; the error path of deeply nested documents is quadratic in the depth (capped by the nesting bound)",
+        "panic sites: the model keeps three (foundKeys[0], List.Append / Map.Set of an invalid Value) and proves them unreachable; the six explicit panic( calls in the decoder's Go files are enumerated by the translator and reviewed one by one (reviewed_panic_sites, gen_panic_sites_reviewed) but their unreachability is an argument in comments, not a theorem; protoreflect kind-mismatch panics are excluded by checkValueKind (fix 6180e67) for scalar stores and otherwise by the schema being derived from the same descriptor (not modelled)",
+        "the quantification over ALL environments is cheap: msg_mutable / list / map accessors are totalised (a non-message value under a message-typed path is treated as absent), so ill-typed environments that the real reflector cannot produce never fail in the model; the environments of the run are dumped from the real reflector",
+        "uninterpreted: strconv.ParseFloat, time.Parse, decimal.NewFromString are total Coq functions, i.e. assumed to terminate without panic (finding e0edec1 showed decimal.String() is not harmless; the exponent guard in front of it is modelled); WithProtoToAny not modelled",
+    ],
 }
 
 MANIFEST = {
-    "text": "Theorems over a Gallina model of the J5 JSON decoder (recursive descent over encoding/json's token stream, every Go panic site reachable from it kept as a Panic outcome): for all byte strings, all schema environments (recursive types included), all root types and whatever strconv.ParseFloat/time.Parse/decimal answer, decoding returns success or an error, never a panic, and never exhausts a fuel of (number of tokens + 1) — the index site of decodeOneofInner and the two protoreflect Append/Set sites are proved unreachable with an invalid value. The model is tied to the code by switch tables re-read from the Go AST on every run and by running model and implementation on the same valid, truncated, null-substituted, mutated, random and deeply nested documents; URL-query decoding (propertyAtPath, scalar / array / JSON-container arms) is modelled and proved total for every list of key/value pairs in any visiting order; a crash/deadline oracle runs JSON and URL-query decoding under recover(), documents nested 10^6 deep in a child process.",
+    "text": "Theorems over a Gallina model of the J5 JSON decoder (recursive descent over encoding/json's token stream, the three runtime / protoreflect panic sites that the decoder's own logic must guard kept as Panic outcomes, the explicit panic( calls enumerated and reviewed): for all byte strings, all schema environments (recursive types included), all root types and whatever strconv.ParseFloat/time.Parse/decimal answer, decoding returns success or an error, never a panic, and never exhausts a fuel of (number of tokens + 1) — the index site of decodeOneofInner and the two protoreflect Append/Set sites are proved unreachable with an invalid value. The model is tied to the code by switch tables re-read from the Go AST on every run and by running model and implementation on the same valid, truncated, null-substituted, mutated, random and deeply nested documents; URL-query decoding (propertyAtPath, scalar / array / JSON-container arms) is modelled and proved total for every list of key/value pairs in any visiting order; a crash/deadline oracle runs JSON and URL-query decoding under recover(), documents nested 10^6 deep in a child process.",
     "note": "Trusted: Coq kernel; translator; harness; encoding/json tokenizer, strconv integer parsing, base64 and protoreflect presence semantics are modelled, not verified; ParseFloat/time.Parse/decimal are uninterpreted. Linear time is not claimed: the error path of deeply nested documents is quadratic in the depth (measured, reported in evidence notes).",
     "technique": "Rocq/Coq proof (mutual induction on fuel over the recursive-descent model, case analysis of every panic site) + regenerated switch tables + in-Coq differential correspondence + crash/deadline oracle",
 }
